@@ -17,6 +17,8 @@
 -/
 import JrsVerif.Proofs.Fmt
 import JrsVerif.Proofs.FmtEval
+import JrsVerif.Proofs.FmtWfNorm
+import JrsVerif.Proofs.FmtEvalCongr
 
 namespace JrsVerif.Props.C19
 open JrsVerif.Fmt
@@ -63,6 +65,24 @@ theorem validate_norm (t : Tree) : validate t (norm t) := (norm_idem t).symm
 theorem validate_normal_iff (a b : Tree) (ha : norm a = a) (hb : norm b = b) : validate a b ↔ a = b := by
   unfold validate; rw [ha, hb]
 
+/-- ★ the normal form of a tree of the shape grammar is a tree of the shape grammar, in every
+    syntactic category (`wfS`: the table-driven, structurally recursive form of the grammar the
+    driver checks on every serialised tree; `Model/FmtWfS.lean`) -/
+theorem norm_preserves_wellformed_cat (s : Srt) (t : Tree) (h : wfS s t = true) : wfS s (norm t) = true :=
+  wfS_norm t s h
+
+/-- ★ `norm_preserves_wellformed`: normalising a serialised program yields a serialised program -/
+theorem norm_preserves_wellformed (t : Tree) (h : wfProg t = true) : wfProg (norm t) = true :=
+  wfS_norm t .expr h
+
+/-- one rewrite step stays inside its category too (a `bind` becomes a `bind`, a `field` a `field`) -/
+theorem sugarHead_preserves_wellformed (s : Srt) (t : Tree) (h : wfS s t = true) :
+    wfS s (sugarHead t) = true := wfS_sugarHead s t h
+
+/-- whatever validates against a well-formed program has a well-formed normal form -/
+theorem validate_wellformed (a b : Tree) (v : validate a b) (h : wfProg a = true) : wfProg (norm b) = true := by
+  unfold validate at v; rw [← v]; exact norm_preserves_wellformed a h
+
 /-! ### 3. the interpreter model treats the sugar pairs alike -/
 
 open JrsVerif.Eval in
@@ -81,6 +101,39 @@ theorem eval_local_sugar (fuel : Nat) (c : Ctx) (bs : List Bind) (body : Expr) :
 open JrsVerif.Eval in
 /-- the interpreter stores the same field body for `f(ps): e` and `f: function(ps) e` -/
 theorem eval_field_sugar (f : Field) : fieldBody (unsugarField f) = fieldBody f := fieldBody_sugar f
+
+open JrsVerif.Eval in
+/-- ★ congruence: the `local` sugar may be rewritten (in either direction, any number of times)
+    anywhere below the *strict* constructors of an expression — operand of a unary operator or of
+    `error`, operands of a binary operator other than `in`, condition and branches of `if`,
+    condition / message / continuation of `assert`, body of a `local`, callee of an application —
+    and evaluation stays the same computation: same result, same store, same trace, for every fuel
+    and every context.  (Positions that are stored in thunks or closures — array elements, call
+    arguments, function bodies, object members, bound values — are NOT covered: there the two stores
+    differ syntactically and a store bisimulation would be needed.) -/
+theorem eval_strict_congruence {e e' : Expr} (h : StrictEq e e') (fuel : Nat) (c : Ctx) :
+    run fuel (.eval c e) = run fuel (.eval c e') := strictEq_sameRun h fuel c
+
+open JrsVerif.Eval in
+/-- the single-constructor congruence steps `eval_strict_congruence` is made of -/
+theorem eval_congr_if {cd cd' t t' e e' : Expr} (hc : SameRun cd cd') (ht : SameRun t t') (he : SameRun e e') :
+    SameRun (.ifE cd t (some e)) (.ifE cd' t' (some e')) := sameRun_ifSome hc ht he
+
+open JrsVerif.Eval in
+theorem eval_congr_binary (op : BOp) (hop : op ≠ .in_) {a a' b b' : Expr} (ha : SameRun a a') (hb : SameRun b b') :
+    SameRun (.binary op a b) (.binary op a' b') := sameRun_binary op hop ha hb
+
+open JrsVerif.Eval in
+theorem eval_congr_local_body (bs : List Bind) {b b' : Expr} (h : SameRun b b') :
+    SameRun (.localE bs b) (.localE bs b') := sameRun_localBody bs h
+
+open JrsVerif.Eval in
+/-- non-vacuity: `if !(local f(x) = x; true) then 1 else 2` and the same program with
+    `local f = function(x) x` are related, hence evaluate identically -/
+example : StrictEq
+    (.ifE (.unary .not (.localE [.val "f" (.func [.mk "x" none] (.var "x"))] .tru)) (.num 1) (some (.num 2)))
+    (.ifE (.unary .not (.localE [.fn "f" [.mk "x" none] (.var "x")] .tru)) (.num 1) (some (.num 2))) :=
+  .ifSome (.unary .not (.sugar [.fn "f" [.mk "x" none] (.var "x")] (.refl _))) (.refl _) (.refl _)
 
 /-! ### 4. comments -/
 
@@ -169,6 +222,11 @@ example : ¬ validate
 /-- `f+: function(x) x` is NOT identified with a method (the method form has no `+`) -/
 example : sugarHead (.node "field" [.node "fixed" [.atom "f"], .atom "true", .node "none" [], .atom ":", tF])
     = .node "field" [.node "fixed" [.atom "f"], .atom "true", .node "none" [], .atom ":", tF] := by decide
+/-- the table-driven grammar reduces: both sample programs are well-formed, a `bind` with a missing
+    value or a `tailstrict` flag that is not an atom is not -/
+example : wfProg tLocalExplicit = true ∧ wfProg tLocalSugar = true ∧ wfProg (norm tLocalExplicit) = true := by decide
+example : wfProg (.node "local" [.node "binds" [.node "bind" [.node "dfull" [.atom "f"]]], .node "var" [.atom "f"]]) = false := by decide
+example : wfProg (.node "apply" [.node "var" [.atom "f"], .node "args" [], .node "named" [], .node "x" []]) = false := by decide
 example : comments [⟨"WHITESPACE", " "⟩, ⟨"SINGLE_LINE_HASH_COMMENT", "#  a  b"⟩, ⟨"IDENT", "x"⟩,
       ⟨"MULTI_LINE_COMMENT", "/* c\n   d */"⟩]
     = [("SINGLE_LINE_HASH_COMMENT", ["a", "b"]), ("MULTI_LINE_COMMENT", ["c", "d"])] := by decide
